@@ -1410,7 +1410,11 @@ def run(rep: vlib.Reporter, tier: str, seed: int) -> None:
                     "objects; non-trivial = the GlobalFilter is passed to >= 2 calls incl. the last, or a feature carries a Link, or a "
                     "copy_features=False call. C: requests whose features carry Feature objects as in_features (1-2 levels; frozenset, "
                     "single, list) next to an option value that cannot be deep-copied (sqlite connection, lock, generator); second call "
-                    "on another framework / the same nested objects below another dependent feature; non-trivial = uncopyable value present.")
+                    "on another framework / the same nested objects below another dependent feature; non-trivial = uncopyable value present. "
+                    "A-modes: histories (<= 6 operations) whose operations draw their mode from {SYNC, THREADING, MULTIPROCESSING} as far as "
+                    "the plan admits (conflict_free / conflict_free_x, no api_data-backed root, no transform from a non-Arrow framework); "
+                    "non-trivial = >= 2 modes and >= 2 operation kinds in one history. B-modes: the call sequences of B with every run_all "
+                    "drawing its mode; non-trivial = run_all calls in >= 2 modes within one sequence.")
     if not pr.ok and not found:
         rep.finding("proof-broken", "Props/C07.v no longer checks",
                     {"failed_files": pr.failed_files, "forbidden": pr.forbidden, "log_tail": pr.log[-3000:]}, found_input=False)
